@@ -640,6 +640,42 @@ def sweep_units():
 ALL.append(sweep_units)
 
 
+def _rollback_versions_run(ctx):
+    """The state store_stage leaves behind when one object is saved twice in a transaction: staged (obj, v0), (obj, v0 + 1),
+    in-memory version v0 + 2 -- plus a second object saved once."""
+    I = ctx.I
+    txn = make_txn(ctx)
+    a = T.new_symbolic(I, "StageExecution", "stage_a")
+    b = T.new_symbolic(I, "StageExecution", "stage_b")
+    va, vb = z3.Int("a_version_in_db"), z3.Int("b_version_in_db")
+    I.st.objs[a.oid].fields["version"] = SInt(va + 2)
+    I.st.objs[b.oid].fields["version"] = SInt(vb + 1)
+    I.st.objs[txn.oid].fields["_staged_objects"] = I.ops.new_conc_list([STuple([a, SInt(va)]), STuple([b, SInt(vb)]), STuple([a, SInt(va + 1)])])
+    ctx.extra.update(a=a, b=b, va=va, vb=vb, txn=txn)
+    return I.call(I.getattr(txn, "rollback_versions"), [], {})
+
+
+def _rollback_versions_post(ctx):
+    I = ctx.I
+    if ctx.exc is not None:
+        return [("no-exception", FALSE)]
+    a, b = ctx.extra["a"], ctx.extra["b"]
+    staged = I.getattr(ctx.extra["txn"], "_staged_objects")
+    return [("object-saved-twice-is-back-at-the-database-version", I.ops.as_int(I.getattr(a, "version")) == ctx.extra["va"]),
+            ("object-saved-once-is-back-at-the-database-version", I.ops.as_int(I.getattr(b, "version")) == ctx.extra["vb"]),
+            ("staging-list-cleared", I.ops.list_len(staged) == 0)]
+
+
+def rollback_units():
+    reg = sql_registry()
+    return [Unit(prop="*", name="L1/AtomicTransaction.rollback_versions", func=P + "transaction:AtomicTransaction.rollback_versions", params=[],
+                 names=STATUS_NAMES, registry=reg, replayable=False, run=_rollback_versions_run,
+                 obligations=[Obl("C07/rollback-restores/versions", _rollback_versions_post, when="any", scenario="d13_rollback_versions_order.py")])]
+
+
+ALL.append(rollback_units)
+
+
 # ---- AtomicTransaction: push_message, mark_message_processed, acquire_claim, update_workflow_status, rollback_versions
 def make_txn(ctx):
     I = ctx.I
